@@ -348,6 +348,11 @@ class Monitor:
                 cause = 'related:' + f['related'][1]
             elif f['related']:
                 cause = 'related:' + f['related'][0]
+            elif f['old'][0] == 'b' and f['new'][0] == 'b' and \
+                    {f['old'][1], f['new'][1]} <= {'ByteType', 'ShortType', 'CharType', 'IntegerType'}:
+                # JLS 5.2: a constant expression of type byte/short/char/int narrows (and boxes) when the
+                # value fits: `Byte b = (short) 5;` compiles
+                cause = 'numeric-constant-narrowing'
             elif f.get('prev_text') is not None and f['prev_text'].split('\n', 1)[-1] == f['text'].split('\n', 1)[-1]:
                 cause = 'translation-unchanged'
             else:
